@@ -12,6 +12,8 @@ mod common;
 
 use clarabel::algebra::CscMatrix;
 use clarabel::qdldl::{QDLDLError, QDLDLFactorisation, QDLDLSettings};
+use clarabel::solver::{DefaultSettings, SupportedConeT};
+use clarabel::verif_hooks::{c11 as vh11, c12 as vh12};
 use common::*;
 use serde_json::{json, Value};
 use std::collections::BTreeMap;
@@ -441,6 +443,225 @@ fn gen_kkt(rng: &mut Rng, n1: usize, n2: usize) -> Inp {
           reg_enable: true, eps: 1e-12, delta: 1e-7, ops: vec![OpIn::Solve(b)], resid: false }
 }
 
+
+// ------------------------------------------------------------------ the QDLDL driver (round 3)
+fn cstr(s: &str) -> String { format!("\"{}\"%string", s.replace('"', "\"\"")) }
+
+/// random problem data for a driven DirectLDLKKTSolver: P (n x n, psd-ish, upper), A (m x n), cones
+fn drv_problem(rng: &mut Rng, n: usize, m: usize, soc: bool) -> (CscMatrix<f64>, CscMatrix<f64>, Vec<SupportedConeT<f64>>) {
+    // P = upper triangle of a diagonally dominant matrix (some zero diagonals allowed)
+    let (cp, rv, nz) = {
+        let (mut cp, mut rv, mut nz) = (vec![0usize], vec![], vec![]);
+        for j in 0..n {
+            for i in 0..=j {
+                if i == j { if rng.chance(4, 5) { rv.push(i); nz.push(1.0 + rng.unit()); } }
+                else if rng.chance(1, 4) { rv.push(i); nz.push((rng.unit() - 0.5) / n as f64); }
+            }
+            cp.push(rv.len());
+        }
+        (cp, rv, nz)
+    };
+    let P = CscMatrix { m: n, n, colptr: cp, rowval: rv, nzval: nz };
+    let (mut cp, mut rv, mut nz) = (vec![0usize], vec![], vec![]);
+    for j in 0..n {
+        for i in 0..m { if rng.chance(2, 5) || i % n == j { rv.push(i); nz.push(2.0 * rng.unit() - 1.0); } }
+        cp.push(rv.len());
+    }
+    let A = CscMatrix { m, n, colptr: cp, rowval: rv, nzval: nz };
+    let cones = if soc && m >= 4 {
+        vec![SupportedConeT::ZeroConeT(1), SupportedConeT::SecondOrderConeT(m - 1 - (m - 1) / 3), SupportedConeT::NonnegativeConeT((m - 1) / 3)]
+            .into_iter().filter(|c| match c { SupportedConeT::NonnegativeConeT(0) => false, _ => true }).collect()
+    } else {
+        let z = m / 3;
+        vec![SupportedConeT::ZeroConeT(z), SupportedConeT::NonnegativeConeT(m - z)]
+            .into_iter().filter(|c| match c { SupportedConeT::ZeroConeT(0) | SupportedConeT::NonnegativeConeT(0) => false, _ => true }).collect()
+    };
+    (P, A, cones)
+}
+
+fn drv_settings_from(v: &Value) -> DefaultSettings<f64> {
+    let mut s = DefaultSettings::<f64>::default();
+    s.verbose = false;
+    s.direct_solve_method = v["method"].as_str().unwrap().to_string();
+    s.static_regularization_enable = v["static_enable"].as_bool().unwrap();
+    s.static_regularization_constant = v["rconst"].as_f64().unwrap();
+    s.static_regularization_proportional = v["rprop"].as_f64().unwrap();
+    s.dynamic_regularization_enable = v["dyn_enable"].as_bool().unwrap();
+    s.dynamic_regularization_eps = v["dyn_eps"].as_f64().unwrap();
+    s.dynamic_regularization_delta = v["dyn_delta"].as_f64().unwrap();
+    s.iterative_refinement_enable = v["ir_enable"].as_bool().unwrap();
+    s.iterative_refinement_reltol = v["reltol"].as_f64().unwrap();
+    s.iterative_refinement_abstol = v["abstol"].as_f64().unwrap();
+    s.iterative_refinement_max_iter = v["maxiter"].as_u64().unwrap() as u32;
+    s.iterative_refinement_stop_ratio = v["stopratio"].as_f64().unwrap();
+    s
+}
+fn csc_json(a: &CscMatrix<f64>) -> Value { json!({"m": a.m, "n": a.n, "colptr": a.colptr, "rowval": a.rowval, "nzval": a.nzval}) }
+fn csc_from(v: &Value) -> CscMatrix<f64> {
+    CscMatrix { m: v["m"].as_u64().unwrap() as usize, n: v["n"].as_u64().unwrap() as usize, colptr: usize_vec(&v["colptr"]), rowval: usize_vec(&v["rowval"]), nzval: f64_vec(&v["nzval"]) }
+}
+fn cones_from(v: &Value) -> Vec<SupportedConeT<f64>> {
+    v.as_array().unwrap().iter().map(|c| { let k = c[1].as_u64().unwrap() as usize; match c[0].as_str().unwrap() { "z" => SupportedConeT::ZeroConeT(k), "soc" => SupportedConeT::SecondOrderConeT(k), _ => SupportedConeT::NonnegativeConeT(k) } }).collect()
+}
+fn cones_json(c: &[SupportedConeT<f64>]) -> Value {
+    Value::Array(c.iter().map(|c| match c { SupportedConeT::ZeroConeT(k) => json!(["z", k]), SupportedConeT::SecondOrderConeT(k) => json!(["soc", k]), SupportedConeT::NonnegativeConeT(k) => json!(["nn", k]), _ => json!(["nn", 0]) }).collect())
+}
+
+/// one driven case: new -> (scaling update -> kkt update)* -> setrhs/solve; everything replayed on the model
+fn exec_driver(inp: &Value) -> (String, Vec<String>) {
+    let P = csc_from(&inp["P"]); let A = csc_from(&inp["A"]); let cones = cones_from(&inp["cones"]);
+    let settings = drv_settings_from(&inp["settings"]);
+    let mut tags = vec!["driver".to_string()];
+    let r = guarded(|| {
+        let mut d = vh11::Driven::new(&P, &A, &cones, settings.clone());
+        let m = A.m;
+        let mut ok = true;
+        for u in inp["updates"].as_array().unwrap() {
+            let s = f64_vec(&u["s"]); let z = f64_vec(&u["z"]);
+            if s.len() == m { d.update_scaling(&s, &z, u["mu"].as_f64().unwrap(), false); } else { d.set_identity_scaling(); }
+            ok = d.kkt_update();
+        }
+        let snap = d.snapshot();
+        let rhsx = f64_vec(&inp["rhsx"]); let rhsz = f64_vec(&inp["rhsz"]);
+        let sol = if ok { Some(vh12::driven_solve(&mut d, &rhsx, &rhsz)) } else { None };
+        (ok, snap, sol)
+    });
+    let (ok, snap, sol) = match r { Some(x) => x, None => { tags.push("panic".into()); return ("1%N".into(), tags); } };
+    let K = &snap.K;
+    let perm = guarded(|| clarabel::qdldl::verif_amd_ordering(K, 1.5).0).unwrap_or((0..K.n).collect());
+    let st = &inp["settings"];
+    let fl = |k: &str| cfl(st[k].as_f64().unwrap());
+    // right-hand side as assembled by setrhs
+    let (b, solve_ok, x, norm0, steps, has_ir) = match &sol {
+        Some((sok, x, b, ev)) => {
+            let mut steps: Vec<String> = vec![]; let mut norm0 = 0.0; let mut i = 0;
+            let ev = ev.clone();
+            while i < ev.len() {
+                match ev[i].0 {
+                    0 => { norm0 = ev[i].2; i += 1; }
+                    1 => {
+                        let nrm = ev[i].2;
+                        let k2 = if i + 1 < ev.len() { ev[i + 1].0 } else { 255 };
+                        let k3 = if i + 2 < ev.len() { ev[i + 2].0 } else { 255 };
+                        if k2 == 4 { steps.push(format!("IrAccept {}", cfl(nrm))); i += 2; }
+                        else if k2 == 3 && k3 == 2 { steps.push(format!("IrStopAccept {}", cfl(nrm))); i += 3; }
+                        else if k2 == 3 { steps.push(format!("IrStopReject {}", cfl(nrm))); i += 2; }
+                        else { steps.push(format!("IrNonFinite {}", cfl(nrm))); i += 1; }
+                    }
+                    _ => { i += 1; }
+                }
+            }
+            if !steps.is_empty() { tags.push(format!("ir{}", steps.len())); }
+            for s in steps.iter() { tags.push(s.split(' ').next().unwrap().to_string()); }
+            (b.clone(), *sok, x.clone(), norm0, steps, !ev.is_empty())
+        }
+        None => { let mut b = f64_vec(&inp["rhsx"]); b.extend(f64_vec(&inp["rhsz"])); b.resize(K.n, 0.0); (b, false, vec![], 0.0, vec![], false) }
+    };
+    if !ok { tags.push("refactor-failed".into()); }
+    if !solve_ok && ok { tags.push("solve-nonfinite".into()); }
+    let out = format!("(mkDO {} {} {} {} {} {} [{}])", ok, cfl(snap.eps), solve_ok, cfllist(&x), cfl(norm0), has_ir, steps.join("; "));
+    let coq = format!("(c_driver (spmF {} {} {} {} {}) {} {} {} {} {} {} {} {} {} {} {} {} {} {} {} {})",
+        cn(K.m), cn(K.n), cnlist(&K.colptr), cnlist(&K.rowval), cfllist(&K.nzval),
+        czlist(&snap.dsigns.iter().map(|&x| x as i64).collect::<Vec<_>>()), cnlist(&snap.maps.diag_full), cnlist(&perm),
+        st["dyn_model"].as_bool().unwrap(), fl("dyn_eps"), fl("dyn_delta"),
+        st["static_enable"].as_bool().unwrap(), fl("rconst"), fl("rprop"),
+        cfllist(&b), st["ir_enable"].as_bool().unwrap(), fl("reltol"), fl("abstol"), fl("stopratio"), cn(st["maxiter"].as_u64().unwrap() as usize), out);
+    (coq, tags)
+}
+
+fn exec_dispatch(inp: &Value) -> (String, Vec<String>) {
+    let P = csc_from(&inp["P"]); let A = csc_from(&inp["A"]); let cones = cones_from(&inp["cones"]);
+    let s = inp["method"].as_str().unwrap().to_string();
+    let valid = vh12::validate_method(&s);
+    let K = vh11::assemble(&P, &A, &cones, false).K;
+    let (nd, nm, lnz) = vh12::amd_stats(&K);
+    let mut set = DefaultSettings::<f64>::default(); set.verbose = false; set.direct_solve_method = s.clone();
+    let bk = match guarded(|| vh12::driven_backend(&vh11::Driven::new(&P, &A, &cones, set))) {
+        Some(name) => if name == "qdldl" { 0 } else if name == "faer" { 1 } else { 9 },
+        None => 2,
+    };
+    let tags = vec!["dispatch".to_string(), format!("backend{}", bk), format!("valid-{}", valid)];
+    (format!("(c_dispatch {} {} {} {} {} {} {})", true, cstr(&s), cfl(nd as f64), cfl(nm as f64), cfl(lnz as f64), valid, cn(bk)), tags)
+}
+
+fn gen_driver(sink: &mut CaseSink, st: &mut BTreeMap<String, usize>, rng: &mut Rng, thorough: bool) {
+    let emitv = |sink: &mut CaseSink, st: &mut BTreeMap<String, usize>, op: &str, v: Value| {
+        let (coq, tags) = if op == "driver" { exec_driver(&v) } else { exec_dispatch(&v) };
+        for t in tags.iter() { *st.entry(format!("{}:{}", op, t)).or_insert(0) += 1; }
+        let tr: Vec<&str> = tags.iter().map(|s| s.as_str()).collect();
+        sink.case(op, v, coq, &tr);
+    };
+    // crafted exact-arithmetic cases that sit ON the decision boundaries of the refinement loop:
+    // K = diag(p, -1), static eps = e with p + e a power of two, rhs (bx, 0): residuals shrink by the
+    // exact factor (p+e)/e per pass
+    for &(p0, e0, bx, reltol, abstol, maxiter, stopratio) in &[
+        (0.75, 0.25, 1.0, 0.0, 0.0, 5u64, 4.0),        // ratio == stop_ratio exactly: accepted every pass
+        (0.75, 0.25, 1.0, 0.0, 0.0, 5u64, 4.000000000000001), // just above: stop (better): StopAccept
+        (0.75, 0.25, 8.0, 0.25, 0.0, 5u64, 2.0),       // norme == reltol*normb exactly: exit before any pass
+        (0.75, 0.25, 1.0, 0.0, 0.25, 5u64, 2.0),       // norme == abstol exactly
+        (0.75, 0.25, 1.0, 0.0, 0.0625, 5u64, 2.0),     // tolerance reached after one pass
+        (0.5, 0.5, 1.2e308, 0.0, 0.0, 10u64, 1.5),     // candidates overflow: IrNonFinite, is_success = false
+        (0.75, 0.25, 1.0, 0.0, 0.0, 0u64, 4.0),        // max_iter = 0
+    ] {
+        let P = CscMatrix { m: 1, n: 1, colptr: vec![0, 1], rowval: vec![0], nzval: vec![p0] };
+        let A = CscMatrix { m: 1, n: 1, colptr: vec![0, 1], rowval: vec![0], nzval: vec![0.0] };
+        let cones = vec![SupportedConeT::NonnegativeConeT(1)];
+        let v = json!({"P": csc_json(&P), "A": csc_json(&A), "cones": cones_json(&cones), "updates": [{"s": [], "z": [], "mu": 1.0}], "rhsx": [bx], "rhsz": [0.0],
+            "settings": {"method": "qdldl", "static_enable": true, "rconst": e0, "rprop": 0.0, "dyn_enable": true, "dyn_model": true,
+                         "dyn_eps": 1e-13, "dyn_delta": 2e-7, "ir_enable": true, "reltol": reltol, "abstol": abstol, "maxiter": maxiter, "stopratio": stopratio}});
+        emitv(sink, st, "driver", v);
+    }
+    let nd = if thorough { 600 } else { 140 };
+    for t in 0..nd {
+        let n = rng.range(1, 7) as usize; let m = rng.range(1, 8) as usize;
+        let (P, A, cones) = drv_problem(rng, n, m, t % 5 == 4);
+        let nupd = 1 + rng.below(2);
+        let mut ups = vec![];
+        for _ in 0..nupd {
+            if rng.chance(1, 6) { ups.push(json!({"s": [], "z": [], "mu": 1.0})); continue; }
+            // an interior point: unit initialisation scaled
+            let d0 = vh11::Driven::new(&P, &A, &cones, { let mut s = DefaultSettings::<f64>::default(); s.verbose = false; s });
+            let mut z = vec![0.0; m]; let mut s = vec![0.0; m]; d0.unit_initialization(&mut z, &mut s);
+            let (a, b) = (0.25 + 2.0 * rng.unit(), 0.25 + 2.0 * rng.unit());
+            // perturb only the nonnegative part (always interior); SOC parts keep the scaled unit point
+            let mut off = 0usize;
+            for c in cones.iter() { match c {
+                SupportedConeT::NonnegativeConeT(k) => { for i in 0..*k { s[off + i] = a * (0.2 + rng.unit()); z[off + i] = b * (0.2 + rng.unit()); } off += k; }
+                SupportedConeT::ZeroConeT(k) => { off += k; }
+                SupportedConeT::SecondOrderConeT(k) => { for i in 0..*k { s[off + i] *= a; z[off + i] *= b; if i > 0 { s[off + i] = 0.3 * a * (rng.unit() - 0.5) / *k as f64; z[off + i] = 0.3 * b * (rng.unit() - 0.5) / *k as f64; } } off += k; }
+                _ => {} } }
+            let mu = s.iter().zip(z.iter()).map(|(x, y)| x * y).sum::<f64>() / (m as f64).max(1.0);
+            ups.push(json!({"s": s, "z": z, "mu": mu}));
+        }
+        // settings: defaults, or pushed so that every branch of the refinement is taken
+        let kind = t % 7;
+        let dyn_enable = !(t % 11 == 10);
+        let (static_enable, rconst, rprop) = match kind { 0 => (false, 0.0, 0.0), 1 | 2 => (true, 1e-8, 4.930380657631324e-32), 3 => (true, 0.015625, 0.0078125), _ => (true, 1e-3 * rng.unit(), 1e-4 * rng.unit()) };
+        let (dyn_eps, dyn_delta) = match kind { 5 => (0.5 * rng.unit(), 0.5 + rng.unit()), _ => (1e-13, 2e-7) };
+        let ir_enable = kind != 6 || rng.chance(1, 2);
+        let (reltol, abstol, maxiter, stopratio) = match t % 5 { 0 => (1e-13, 1e-12, 10, 5.0), 1 => (0.0, 0.0, rng.range(0, 4) as u64, 1.0 + rng.unit()), 2 => (1e-16, 1e-18, 10, 0.5 + rng.unit()), 3 => (1e-6, 1e-6, 3, 2.0), _ => (0.0, 1e-300, 6, 1.0000001) };
+        let rhsx: Vec<f64> = (0..n).map(|_| 2.0 * rng.unit() - 1.0).collect();
+        let mut rhsz: Vec<f64> = (0..m).map(|_| 2.0 * rng.unit() - 1.0).collect();
+        if t % 37 == 36 && m > 0 { rhsz[0] = f64::INFINITY.min(1e308) * 10.0; } // a non-finite right-hand side
+        let v = json!({"P": csc_json(&P), "A": csc_json(&A), "cones": cones_json(&cones), "updates": ups, "rhsx": rhsx, "rhsz": rhsz.iter().map(|x| if x.is_finite() { json!(x) } else { json!(1e308) }).collect::<Vec<_>>(),
+            "settings": {"method": "qdldl", "static_enable": static_enable, "rconst": rconst, "rprop": rprop, "dyn_enable": dyn_enable, "dyn_model": dyn_enable,
+                         "dyn_eps": dyn_eps, "dyn_delta": dyn_delta, "ir_enable": ir_enable, "reltol": reltol, "abstol": abstol, "maxiter": maxiter, "stopratio": stopratio}});
+        emitv(sink, st, "driver", v);
+    }
+    // backend dispatch: every documented name, near misses, garbage; small and large (dense) KKT matrices
+    let names = ["auto", "qdldl", "faer", "", "Auto", "AUTO", "QDLDL", "qdldl ", " qdldl", "faer-sparse", "mkl", "panua", "cholmod", "ldl", "auto\n", "q\"dldl"];
+    let (Ps, As, cs) = drv_problem(rng, 3, 3, false);
+    for nm in names.iter() { emitv(sink, st, "dispatch", json!({"P": csc_json(&Ps), "A": csc_json(&As), "cones": cones_json(&cs), "method": nm})); }
+    for &nbig in &[8usize, 40, 90, 130] {
+        // dense P: the AMD flop/nnz ratio grows with n and crosses the threshold of the automatic selection
+        let (cp, rv, nz) = csc_from_dense(nbig, &|i, j| if i == j { nbig as f64 } else { 0.5 / (1.0 + (i + 2 * j) as f64) }, &|_, _| true);
+        let Pd = CscMatrix { m: nbig, n: nbig, colptr: cp, rowval: rv, nzval: nz };
+        let Ad = CscMatrix { m: 1, n: nbig, colptr: (0..=nbig).collect(), rowval: vec![0; nbig], nzval: vec![1.0; nbig] };
+        let cd = vec![SupportedConeT::NonnegativeConeT(1)];
+        for nm in ["auto", "qdldl", "faer"] { emitv(sink, st, "dispatch", json!({"P": csc_json(&Pd), "A": csc_json(&Ad), "cones": cones_json(&cd), "method": nm})); }
+    }
+}
+
 fn next_perm(p: &mut Vec<usize>) -> bool {
     let n = p.len();
     if n < 2 { return false; }
@@ -468,7 +689,7 @@ fn generate(sink: &mut CaseSink, seed: u64, thorough: bool) -> BTreeMap<String, 
         emit_invperm(sink, &mut st, &p);
     }
     // ---- exactness domain
-    let nex = if thorough { 1500 } else { 350 };
+    let nex = if thorough { 1500 } else { 280 };
     for t in 0..nex {
         let n = if t < 40 { 1 + t % 4 } else if t % 10 == 0 { rng.range(13, if thorough { 40 } else { 24 }) as usize } else { rng.range(1, 12) as usize };
         let c = gen_exact(&mut rng, n, "exact");
@@ -495,6 +716,7 @@ fn generate(sink: &mut CaseSink, seed: u64, thorough: bool) -> BTreeMap<String, 
             let nsv = if thorough { 3 } else { 2 };
             for sv in 0..nsv {
                 if n == 5 && sv != pat % 3 { continue; }
+                if !thorough && n == 4 && sv != pat % 2 { continue; } // quick: one (rotating) sign vector per n=4 pattern
                 let signs: Vec<i8> = (0..n).map(|k| match sv { 0 => 1, 1 => if k % 2 == 0 { 1 } else { -1 }, _ => if k < n / 2 { -1 } else { 1 } }).collect();
                 let (cp, rv, nz) = dd_values(&mut rng, n, &mask, &signs, &|_| true);
                 let mut p: Vec<usize> = (0..n).collect();
@@ -512,7 +734,7 @@ fn generate(sink: &mut CaseSink, seed: u64, thorough: bool) -> BTreeMap<String, 
         }
     }
     // ---- general floats with histories
-    let nfl = if thorough { 1200 } else { 260 };
+    let nfl = if thorough { 1200 } else { 220 };
     for t in 0..nfl {
         let n = if t % 8 == 0 { rng.range(15, if thorough { 32 } else { 26 }) as usize } else { rng.range(1, 12) as usize };
         let c = gen_float(&mut rng, n, "float");
@@ -523,6 +745,8 @@ fn generate(sink: &mut CaseSink, seed: u64, thorough: bool) -> BTreeMap<String, 
         let c = gen_kkt(&mut rng, n1, n2);
         emit(sink, &mut st, &c);
     }
+    // ---- the QDLDL driver: regularize_and_refactor + solve with iterative refinement; backend dispatch
+    gen_driver(sink, &mut st, &mut rng, thorough);
     // ---- malformed inputs
     for t in 0..(if thorough { 300 } else { 100 }) {
         let n = rng.range(1, 6) as usize;
@@ -547,6 +771,62 @@ fn generate(sink: &mut CaseSink, seed: u64, thorough: bool) -> BTreeMap<String, 
                 let j = rng.below(n); let k = c.colptr[j + 1] - 1;
                 if j == 0 || c.colptr[j + 1] - c.colptr[j] == 1 { c.nzval[k] = 0.0; } else { c.reg_enable = true; c.delta = 0.0; c.eps = 100.0; } }
         }
+        emit(sink, &mut st, &c);
+    }
+    // ---- unsorted columns (CscMatrix does not enforce sorted rows and QDLDL accepts them):
+    //      valid matrices with the rows of every column shuffled must be accepted and factored
+    //      correctly; a below-diagonal entry must be rejected wherever it sits in its column
+    //      (first / middle / last); duplicated entries pass check_structure (model tie only)
+    for t in 0..(if thorough { 400 } else { 120 }) {
+        let n = rng.range(2, 7) as usize;
+        let mut c = gen_float(&mut rng, n, "unsorted");
+        // densify a little so that columns have several entries, keep the diagonal
+        let shuffle_cols = |c: &mut Inp, rng: &mut Rng| {
+            for j in 0..c.n {
+                let (a, b) = (c.colptr[j], c.colptr[j + 1]);
+                let mut idx: Vec<usize> = (a..b).collect();
+                rng.shuffle(&mut idx);
+                let r: Vec<usize> = idx.iter().map(|&i| c.rowval[i]).collect();
+                let v: Vec<f64> = idx.iter().map(|&i| c.nzval[i]).collect();
+                for (k, i) in (a..b).enumerate() { c.rowval[i] = r[k]; c.nzval[i] = v[k]; }
+            }
+        };
+        c.ops = vec![OpIn::Solve((0..n).map(|i| 1.0 + 0.25 * i as f64).collect())];
+        match t % 4 {
+            0 => { shuffle_cols(&mut c, &mut rng); } // valid, unsorted: accepted, residual checks apply
+            1 | 2 => {
+                // insert a below-diagonal entry into column j < n-1 at position first / middle / last
+                let j = rng.below(n - 1);
+                let (a, b) = (c.colptr[j], c.colptr[j + 1]);
+                let pos = match rng.below(3) { 0 => a, 1 => a + (b - a) / 2, _ => b };
+                let row = rng.range(j as i64 + 1, n as i64 - 1) as usize;
+                c.rowval.insert(pos, row); c.nzval.insert(pos, 0.125);
+                for q in j + 1..=n { c.colptr[q] += 1; }
+                if t % 4 == 2 { shuffle_cols(&mut c, &mut rng); }
+                c.ops = vec![]; c.resid = false;
+            }
+            _ => {
+                // duplicate one stored entry (same row twice in a column), then shuffle
+                let k = rng.below(c.rowval.len());
+                let j = (0..n).find(|&j| c.colptr[j] <= k && k < c.colptr[j + 1]).unwrap();
+                let (r, v) = (c.rowval[k], c.nzval[k] * 0.5);
+                c.rowval.insert(k, r); c.nzval.insert(k, v);
+                for q in j + 1..=n { c.colptr[q] += 1; }
+                if rng.chance(1, 2) { shuffle_cols(&mut c, &mut rng); }
+                c.resid = false; c.ops = vec![];
+                // the external AMD ordering rejects duplicate entries (unwrap panic inside get_amd_ordering): give an ordering
+                if c.perm.is_none() { c.perm = Some((0..n).collect()); }
+            }
+        }
+        emit(sink, &mut st, &c);
+    }
+    // the two-by-two witnesses: column 0 holding rows [1,0] / [0,1] / [1]
+    for rows0 in [vec![1usize, 0], vec![0, 1], vec![1]] {
+        let k = rows0.len();
+        let mut rowval = rows0.clone(); rowval.extend([0usize, 1]);
+        let mut nzval: Vec<f64> = rows0.iter().map(|&r| if r == 0 { 4.0 } else { 0.5 }).collect(); nzval.extend([0.5, 3.0]);
+        let c = Inp { stream: "unsorted".into(), mode: 'F', m: 2, n: 2, colptr: vec![0, k, k + 2], rowval, nzval, perm: Some(vec![0, 1]),
+            logical: false, dsigns: None, reg_enable: true, eps: 1e-12, delta: 1e-7, ops: vec![], resid: false };
         emit(sink, &mut st, &c);
     }
     // solve with a right-hand side of the wrong length
@@ -608,7 +888,9 @@ fn main() {
     // corpus (regression cases) first
     let run_value = |sink: &mut CaseSink, st: &mut BTreeMap<String, usize>, v: &Value| {
         let inp = v.get("input").unwrap_or(v);
-        if inp.get("perm").is_some() && inp.get("colptr").is_none() { emit_invperm(sink, st, &usize_vec(&inp["perm"])); }
+        if v.get("op").and_then(|o| o.as_str()) == Some("driver") { let (coq, tags) = exec_driver(inp); let tr: Vec<&str> = tags.iter().map(|s| s.as_str()).collect(); sink.case("driver", inp.clone(), coq, &tr); }
+        else if v.get("op").and_then(|o| o.as_str()) == Some("dispatch") { let (coq, tags) = exec_dispatch(inp); let tr: Vec<&str> = tags.iter().map(|s| s.as_str()).collect(); sink.case("dispatch", inp.clone(), coq, &tr); }
+        else if inp.get("perm").is_some() && inp.get("colptr").is_none() { emit_invperm(sink, st, &usize_vec(&inp["perm"])); }
         else { let mut c = inp_from_json(inp); if v.get("input").is_none() { c.stream = "corpus".into(); } emit(sink, st, &c); }
     };
     if let Some(p) = replay {
